@@ -60,6 +60,9 @@ func testsourceProgram(repo, verif string) (*synth.Program, error) {
 	return p, nil
 }
 
+// noJSON: corpus programs marked verif-no-json
+var noJSON = map[string]bool{}
+
 func generate(dir string, p *synth.Program) (files map[string]string, nfuncs int, err error) {
 	defer func() {
 		if r := recover(); r != nil {
@@ -82,6 +85,12 @@ func generate(dir string, p *synth.Program) (files map[string]string, nfuncs int
 	ana := analysis.NewAnalysisFromFile(pkgs[0], src)
 	randSrc := generator.WriteDeclarations(randdata.Generate(ana))
 	unionSrc := generator.WriteDeclarations(gounions.Generate(ana))
+	if noJSON[p.Name] {
+		// the program holds a union inside a generic type of another package:
+		// no package can give that type the JSON methods the wrappers rely on,
+		// so the wire format is out of reach and only the random functions are judged
+		unionSrc = fmt.Sprintf("package %s\n", pkgs[0].Types.Name())
+	}
 	files = map[string]string{}
 	opts := &imports.Options{Comments: true, TabIndent: true, TabWidth: 8}
 	for name, text := range map[string]string{"verif_rand_gen.go": randSrc, "verif_unions_gen.go": unionSrc} {
@@ -113,7 +122,7 @@ func generate(dir string, p *synth.Program) (files map[string]string, nfuncs int
 		return files, 0, nil // compile step will report
 	}
 	var b strings.Builder
-	fmt.Fprintf(&b, "package %s\n\nimport (\n\t\"reflect\"\n\n\t\"verif/c15/rt\"\n)\n\nvar _ = reflect.TypeOf\n\n// VerifC15 lists the generated functions and the tables of this program.\nfunc VerifC15() rt.Program {\n\treturn rt.Program{\n\t\tName: %q,\n\t\tFuncs: []rt.Func{\n", pkgs[0].Types.Name(), p.Name)
+	fmt.Fprintf(&b, "package %s\n\nimport (\n\t\"reflect\"\n\n\t\"verif/c15/rt\"\n)\n\nvar _ = reflect.TypeOf\n\n// VerifC15 lists the generated functions and the tables of this program.\nfunc VerifC15() rt.Program {\n\treturn rt.Program{\n\t\tName: %q,\n\t\tNoJSON: %v,\n\t\tFuncs: []rt.Func{\n", pkgs[0].Types.Name(), p.Name, noJSON[p.Name])
 	for _, fd := range decls {
 		if fd.Recv != nil || !strings.HasPrefix(fd.Name.Name, "rand") || fd.Type.Params.NumFields() != 0 || fd.Type.Results.NumFields() != 1 {
 			continue
@@ -200,6 +209,9 @@ func main() {
 			fatal("%v", err)
 		}
 		p.Analyse = p.Analyse[:1]
+		if _, err := os.Stat(filepath.Join(*verif, "corpus", e.Name(), "verif-no-json")); err == nil {
+			noJSON[p.Name] = true
+		}
 		progs = append(progs, p)
 		kinds[p.Name] = "corpus"
 	}
